@@ -229,8 +229,15 @@ def run_driver(ctx, cfg, groups, tag):
     began = 0
     done = False
     probes = []
+    pres = {}
     for l in out:
-        if l.startswith("begin "):
+        if l.startswith("pre "):
+            # state facts of an input, written before it is handled: survive a crash of the process
+            m = re.match(r"^pre (\d+) (\S+) dec=(\S+) id=(\S+) topic=(\S+) st=(\S+)$", l)
+            if m:
+                pres[int(m.group(1)) - 1] = dict(sess=m.group(2), dec=m.group(3), id=unhx(m.group(4)), topic=unhx(m.group(5)), st=m.group(6),
+                                                 res="CRASH", term=False, frames=[], others=0)
+        elif l.startswith("begin "):
             began = int(l.split()[1])
         elif l.startswith("r "):
             w = l.split()
@@ -262,7 +269,7 @@ def run_driver(ctx, cfg, groups, tag):
             fatal = dict(index=k, log=log[-6000:], msg=results[k]["res"], site="hang", hang=True)
         elif 0 <= k < len(flat) and results[k] is None:
             msg, site = site_from_log(log)
-            fatal = dict(index=k, log=log[-6000:], msg=msg, site=site, hang=False)
+            fatal = dict(index=k, log=log[-6000:], msg=msg, site=site, hang=False, pre=pres.get(k))
         else:
             msg, site = site_from_log(log)
             fatal = dict(index=min(max(k + 1, 0), len(flat) - 1) if flat else -1, log=log[-6000:], msg="driver failed outside an input (rc=%s): %s" % (rc, msg), site="driver", hang=False, driver=True)
@@ -416,6 +423,8 @@ def fuzz(ctx, stats):
                           % (fatal["msg"], cfg_name(cfg), bad.sess, bad.show()["bytes"][:300]),
                           dict(replay_of(cfg, small, law, fatal["msg"]), trace=fatal["log"][-2500:]))
             stats["crashes"].append({"cfg": cfg_name(cfg), "law": law, "input": bad.show()["bytes"][:300]})
+            if bad.msg is not None and fatal.get("pre"):
+                stats.setdefault("model_cases", []).append((cfg, bad, fatal["pre"]))
             crashed_shapes[bad.shape] = crashed_shapes.get(bad.shape, 0) + 1
             restarts += 1
             if restarts >= max_restarts or ctx.replay:
